@@ -62,7 +62,7 @@ theorem inv_step {s s' : St} {tr : Tr} (h : Inv s) (hs : step? s tr = some s') :
   | detect t p =>
     simp only [step?] at hs; split at hs
     · split at hs
-      · cases hs; exact inv_detect h ‹_› ‹_›
+      · rename_i tp htp hg; cases hs; exact inv_detect h htp ⟨hg.1, hg.2.1, hg.2.2.1, hg.2.2.2.1, hg.2.2.2.2.1⟩
       · cases hs
     · cases hs
   | dec t =>
@@ -124,13 +124,38 @@ theorem inv_step {s s' : St} {tr : Tr} (h : Inv s) (hs : step? s tr = some s') :
   | arm p =>
     simp only [step?] at hs; split at hs
     · split at hs
-      · rename_i _ tp htp _; cases hs; exact inv_tpUpdate (tp := tp) h htp rfl rfl ⟨rfl, rfl, Nat.le_refl _⟩
+      · rename_i _ tp htp _; cases hs; exact inv_tpUpdate (tp := tp) h htp rfl rfl ⟨rfl, fun e => e⟩
       · cases hs
     · cases hs
   | insert t p =>
     simp only [step?] at hs; split at hs
     · split at hs
-      · rename_i _ tp htp _; cases hs; exact inv_tpUpdate (tp := tp) h htp rfl rfl ⟨rfl, rfl, Nat.le_succ _⟩
+      · rename_i _ tp htp _; cases hs; exact inv_tpUpdate (tp := tp) h htp rfl rfl ⟨rfl, fun e => Nat.le_succ_of_le e⟩
+      · cases hs
+    · cases hs
+  | startupReady t n =>
+    simp only [step?] at hs; split at hs
+    · split at hs
+      · split at hs
+        · rename_i q _ _ tp htp hg; cases hs
+          exact inv_tpUpdate (tp := tp) h htp rfl rfl ⟨rfl, fun e => e⟩
+        · cases hs
+      · cases hs
+    · cases hs
+  | actionDone t q =>
+    simp only [step?] at hs; split at hs
+    · split at hs
+      · rename_i m _ _ tp hbt hsu htp hg
+        split at hs
+        · rename_i hf; cases hs; exact inv_nestEnter h hbt hsu htp ⟨hg.1, hf.2.2.1, hf.2.2.2⟩
+        · cases hs
+          exact inv_tpUpdate (tp := tp) h htp rfl rfl ⟨rfl, fun e => e⟩
+      · cases hs
+    · cases hs
+  | nestDec t =>
+    simp only [step?] at hs; split at hs
+    · split at hs
+      · cases hs; exact inv_nestDec h ‹_› ‹_›
       · cases hs
     · cases hs
 
